@@ -256,12 +256,16 @@ func (c *connectClient) NewConn(
 	delete(header, connectHeaderTimeout)
 	if deadline, ok := ctx.Deadline(); ok {
 		millis := int64(time.Until(deadline) / time.Millisecond)
-		if millis > 0 {
-			encoded := strconv.FormatInt(millis, 10 /* base */)
-			if len(encoded) <= 10 {
-				header[connectHeaderTimeout] = []string{encoded}
-			} // else effectively unbounded
+		if millis < 0 {
+			millis = 0
 		}
+		// Less than a millisecond left is sent as 0 - the handler should give up
+		// at once - and not as no timeout at all, which would let it run
+		// unbounded.
+		encoded := strconv.FormatInt(millis, 10 /* base */)
+		if len(encoded) <= 10 {
+			header[connectHeaderTimeout] = []string{encoded}
+		} // else effectively unbounded
 	}
 	duplexCall := newDuplexHTTPCall(ctx, c.HTTPClient, c.URL, spec, header)
 	var conn StreamingClientConn
